@@ -1,0 +1,24 @@
+//go:build verif
+
+package endpoint
+
+// Contracts for package endpoint, checked by /verif (govc). Comment-only file: it adds no declarations.
+
+// /pair-verify: the only place that installs a cryptographer on a session. The obligation that carries C03 is the
+// precondition of Session.SetCryptographer (authOK of the shared secret the secure session is derived from).
+//@ func (endpoint *PairVerify) ServeHTTP(response, request)
+//@   requires endpoint != nil && endpoint.context != nil && endpoint.database != nil
+//@   requires response != nil && request != nil && request.Body != nil
+//@   modifies heap, pvshared, sink(response), status(response), stream(request.Body)
+
+//@ func (endpoint *PairSetup) ServeHTTP(response, request)
+//@   requires endpoint != nil && endpoint.context != nil && endpoint.database != nil && endpoint.device != nil && endpoint.emitter != nil
+//@   requires response != nil && request != nil && request.Body != nil
+//@   modifies heap, sink(response), status(response), stream(request.Body), dbver, lastname, lastkey, dbhas, dbkey, srpkey, keyset
+
+// /pairings is a protected endpoint (C01): it may only run for a verified session
+//@ func (endpoint *Pairing) ServeHTTP(response, request)
+//@   requires endpoint != nil && endpoint.controller != nil && endpoint.controller.database != nil && endpoint.emitter != nil
+//@   requires response != nil && request != nil && request.Body != nil
+//@   requires verified: verified(sessOf(request))
+//@   modifies heap, sink(response), status(response), stream(request.Body), dbver, lastname, lastkey, dbhas, dbkey
